@@ -124,10 +124,12 @@ func StateCB(tr *memnet.Trace, conn int, extra func(mqtt.ConnState, error)) func
 		if err != nil {
 			e.Err = err.Error()
 		}
-		tr.Add(e)
+		seq := tr.Add(e)
 		if extra != nil {
 			extra(s, err)
 		}
+		// the return of the callback: two callbacks are only ordered if one began after the other returned
+		tr.Add(memnet.Event{Kind: memnet.KStateRet, Conn: conn, S: s.String(), Ref: seq})
 	}
 }
 
